@@ -14,8 +14,10 @@ import (
 // been populated into it.
 
 // Abstract state: (cache state) x (class of len(db.monitors)).
-//   cache state: Init (untouched in this reconnect), Purged, Populated
-//   len class:   eq1 (exactly one monitor), ne1 (zero or at least two)
+//
+//	cache state: Init (untouched in this reconnect), Purged, Populated
+//	len class:   eq1 (exactly one monitor), ne1 (zero or at least two)
+//
 // A state set is a bitset over the six combinations.
 const (
 	csInit = iota
